@@ -439,3 +439,412 @@ theorem run_good : ∀ (sched : List (Env × Op)) (c : Conn), c.Inv → runPermi
       · exact hv2 o ho
 
 end Tw.Conn7
+
+/-! ## C02: no call hangs; the send timer is armed in every non-idle state except `PendingConnect` -/
+namespace Tw.Conn7
+open Tw.Conn Tw.Time
+
+/-- the send timer is active in `Token`, `Connecting`, `Pending`, `Online` (the 0.7 acceptor's
+`PendingConnect` arms no timer: defect D23, see `Props/C02`) -/
+def Armed (c : Conn) : Prop :=
+  match c.state with
+  | .token _ | .connecting _ _ | .pending _ _ | .online _ _ _ => c.send.isActive = true
+  | _ => True
+
+def Keeps (c : Conn) (r : Res) : Prop :=
+  NoHang r ∧ ∀ c' out, r = .ok (c', out) → Armed c → Armed c'
+
+theorem after_active (now d : Nat) : (Timeout.after now d).isActive = true := rfl
+
+theorem nohang_err {α : Type} {x : Except Fail α} {e : Fail} (h : NoHang x) (hx : x = .error e) : e ≠ .hang := by
+  intro he; subst he; exact h hx
+
+theorem keeps_error (c : Conn) {e : Fail} (h : e ≠ .hang) : Keeps c (.error e) :=
+  ⟨by unfold NoHang; intro he; injection he with he; exact h he, by intro _ _ h; cases h⟩
+
+theorem keeps_panic (c : Conn) (site : String) : Keeps c (.error (.panic site)) :=
+  keeps_error c (by simp)
+
+theorem keeps_ok_armed (c : Conn) {c1 : Conn} (out : Out) (h : Armed c1) : Keeps c (.ok (c1, out)) := by
+  refine ⟨by simp [NoHang], ?_⟩
+  intro c' out' he _
+  injection he with he; injection he with he _; rw [← he]; exact h
+
+theorem keeps_ok_of (c : Conn) {c1 : Conn} (out : Out) (h : Armed c → Armed c1) : Keeps c (.ok (c1, out)) := by
+  refine ⟨by simp [NoHang], ?_⟩
+  intro c' out' he ha
+  injection he with he; injection he with he _; rw [← he]; exact h ha
+
+theorem keeps_same (c : Conn) (out : Out) : Keeps c (.ok (c, out)) := keeps_ok_of c out id
+
+theorem emit_nohang (ps : List Packet) : NoHang (emit ps) := by
+  unfold NoHang emit; split
+  · simp
+  · split <;> simp
+
+theorem sendControlWith_nohang (st : State) (ctl : Control) (tok : Nat) : NoHang (sendControlWith st ctl tok) :=
+  emit_nohang _
+
+theorem sendControl_nohang (st : State) (ctl : Control) : NoHang (sendControl st ctl) :=
+  emit_nohang _
+
+theorem tickAction_keeps (env : Env) (c c0 : Conn) : Keeps c0 (tickAction env c) := by
+  obtain ⟨st, snd⟩ := c
+  cases st with
+  | unconnected => exact keeps_ok_armed _ _ (by simp [Armed])
+  | disconnected => exact keeps_ok_armed _ _ (by simp [Armed])
+  | pendingConnect a => exact keeps_ok_armed _ _ (by simp [Armed])
+  | token a =>
+    simp only [tickAction]
+    cases hx : sendControl (.token a) (.token a) with
+    | error e => exact keeps_error _ (nohang_err (sendControl_nohang _ _) hx)
+    | ok ps => exact keeps_ok_armed _ _ (by simp [Armed, after_active])
+  | connecting a b =>
+    simp only [tickAction]
+    cases hx : sendControl (.connecting a b) (.connect a) with
+    | error e => exact keeps_error _ (nohang_err (sendControl_nohang _ _) hx)
+    | ok ps => exact keeps_ok_armed _ _ (by simp [Armed, after_active])
+  | pending a b =>
+    simp only [tickAction]
+    cases hx : sendControl (.pending a b) .accept with
+    | error e => exact keeps_error _ (nohang_err (sendControl_nohang _ _) hx)
+    | ok ps => exact keeps_ok_armed _ _ (by simp [Armed, after_active])
+  | online a b o =>
+    simp only [tickAction]
+    split
+    · cases hx : emit (o.flush.2.map (ofFlushed b)) with
+      | error e => exact keeps_error _ (nohang_err (emit_nohang _) hx)
+      | ok ps => exact keeps_ok_armed _ _ (by simp [Armed, after_active])
+    · cases hx : sendControl (.online a b o) .keepAlive with
+      | error e => exact keeps_error _ (nohang_err (sendControl_nohang _ _) hx)
+      | ok ps => exact keeps_ok_armed _ _ (by simp [Armed, after_active])
+
+theorem connect_keeps (env : Env) (c : Conn) : Keeps c (connect env c) := by
+  obtain ⟨st, snd⟩ := c
+  cases st with
+  | unconnected =>
+    simp only [connect]
+    split
+    · exact keeps_panic _ _
+    · exact tickAction_keeps env _ _
+  | token a => exact keeps_panic _ _
+  | pendingConnect a => exact keeps_panic _ _
+  | connecting a b => exact keeps_panic _ _
+  | pending a b => exact keeps_panic _ _
+  | online a b o => exact keeps_panic _ _
+  | disconnected => exact keeps_panic _ _
+
+theorem disconnect_keeps (env : Env) (c : Conn) (r : Bytes) : Keeps c (disconnect env c r) := by
+  obtain ⟨st, snd⟩ := c
+  have key : ∀ st' : State, Keeps ⟨st, snd⟩
+      (if r.any (· == 0) = true then .error (.panic "disconnect: reason must not contain NULs")
+       else match sendControl st' (.close r) with
+        | .error e => .error e
+        | .ok ps => .ok (⟨.disconnected, snd⟩, { sent := ps })) := by
+    intro st'
+    split
+    · exact keeps_panic _ _
+    · cases hx : sendControl st' (.close r) with
+      | error e => exact keeps_error _ (nohang_err (sendControl_nohang _ _) hx)
+      | ok ps => exact keeps_ok_armed _ _ (by simp [Armed])
+  cases st with
+  | disconnected => exact keeps_panic _ _
+  | unconnected => exact key _
+  | token a => exact key _
+  | pendingConnect a => exact key _
+  | connecting a b => exact key _
+  | pending a b => exact key _
+  | online a b o => exact key _
+
+theorem flush_keeps (env : Env) (c : Conn) : Keeps c (flush env c) := by
+  obtain ⟨st, snd⟩ := c
+  cases st with
+  | online a b o =>
+    simp only [flush]
+    cases hx : emit (o.flush.2.map (ofFlushed b)) with
+    | error e => exact keeps_error _ (nohang_err (emit_nohang _) hx)
+    | ok ps => exact keeps_ok_armed _ _ (by simp [Armed, after_active])
+  | unconnected => exact keeps_panic _ _
+  | token a => exact keeps_panic _ _
+  | pendingConnect a => exact keeps_panic _ _
+  | connecting a b => exact keeps_panic _ _
+  | pending a b => exact keeps_panic _ _
+  | disconnected => exact keeps_panic _ _
+
+theorem send_keeps (env : Env) (c : Conn) (d : Bytes) (v : Bool) : Keeps c (step env c (.send d v)) := by
+  obtain ⟨st, snd⟩ := c
+  cases st with
+  | online a b o =>
+    simp only [step, send]
+    cases hr : o.send cfg env.now d v with
+    | error e => exact keeps_error _ (nohang_err (send_nohang _ _ _ _ _) hr)
+    | ok r =>
+      obtain ⟨o1, res, fl⟩ := r
+      simp only
+      cases hq : emit (fl.map (ofFlushed b)) with
+      | error e => exact keeps_error _ (nohang_err (emit_nohang _) hq)
+      | ok ps => exact keeps_ok_of _ _ (by intro ha; simpa [Armed] using ha)
+  | unconnected => exact keeps_panic _ _
+  | token a => exact keeps_panic _ _
+  | pendingConnect a => exact keeps_panic _ _
+  | connecting a b => exact keeps_panic _ _
+  | pending a b => exact keeps_panic _ _
+  | disconnected => exact keeps_panic _ _
+
+theorem sendConnless_keeps (env : Env) (c : Conn) (d : Bytes) : Keeps c (step env c (.sendConnless d)) := by
+  obtain ⟨st, snd⟩ := c
+  cases st with
+  | online a b o =>
+    simp only [step, sendConnless]
+    by_cases hl : d.length > Tw.Gen.Conn.P7.connlessMax
+    · rw [if_pos hl]
+      exact keeps_ok_armed _ _ (by simp [Armed, after_active])
+    · rw [if_neg hl]
+      cases hq : emit [Packet.connless b a d] with
+      | error e => exact keeps_error _ (nohang_err (emit_nohang _) hq)
+      | ok ps => exact keeps_ok_armed _ _ (by simp [Armed, after_active])
+  | unconnected => exact keeps_panic _ _
+  | token a => exact keeps_panic _ _
+  | pendingConnect a => exact keeps_panic _ _
+  | connecting a b => exact keeps_panic _ _
+  | pending a b => exact keeps_panic _ _
+  | disconnected => exact keeps_panic _ _
+
+theorem resendConn_keeps (env : Env) (c0 : Conn) (own their : Nat) (o : Online) (snd : Timeout)
+    (hst : Armed c0 → snd.isActive = true) : Keeps c0 (resendConn env own their o snd) := by
+  obtain ⟨h1, h2⟩ := resend_nohang cfg env.now o snd
+  simp only [resendConn]
+  cases hr : o.resend cfg env.now snd with
+  | error e => exact keeps_error _ (nohang_err h1 hr)
+  | ok r =>
+    obtain ⟨o1, s1, fl⟩ := r
+    simp only
+    cases hq : emit (fl.map (ofFlushed their)) with
+    | error e => exact keeps_error _ (nohang_err (emit_nohang _) hq)
+    | ok ps => exact keeps_ok_of _ _ (by intro ha; simpa [Armed] using h2 o1 s1 fl hr (hst ha))
+
+theorem tick_keeps (env : Env) (c : Conn) : Keeps c (tick env c) := by
+  obtain ⟨st, snd⟩ := c
+  have rest : Keeps ⟨st, snd⟩ (if snd.triggered env.now = true then tickAction env ⟨st, .inactive⟩ else .ok (⟨st, snd⟩, {})) := by
+    split
+    · exact tickAction_keeps env _ _
+    · exact keeps_same _ _
+  cases st with
+  | online a b o =>
+    simp only [tick]
+    split
+    · exact resendConn_keeps env ⟨.online a b o, snd⟩ a b o snd (by intro h; simpa [Armed] using h)
+    · exact rest
+  | unconnected => simpa [tick] using rest
+  | token a => simpa [tick] using rest
+  | pendingConnect a => simpa [tick] using rest
+  | connecting a b => simpa [tick] using rest
+  | pending a b => simpa [tick] using rest
+  | disconnected => simpa [tick] using rest
+
+theorem feedBody_keeps (env : Env) (c : Conn) (p : Packet) : Keeps c (feedBody env c p) := by
+  obtain ⟨st, snd⟩ := c
+  cases p with
+  | connless a b d => exact keeps_same _ _
+  | chunks ack tk rr n cs =>
+    have key : ∀ (own their : Nat) (o : Online), (Armed ⟨st, snd⟩ → snd.isActive = true) →
+        Keeps ⟨st, snd⟩ (match o.receive cfg env.now snd rr cs with
+          | .error e => .error e
+          | .ok (o1, send1, fl, evs) =>
+            match emit (fl.map (ofFlushed their)) with
+            | .error e => .error e
+            | .ok ps => .ok (⟨.online own their o1, send1⟩, { sent := ps, events := evs })) := by
+      intro own their o hst
+      obtain ⟨h1, h2⟩ := receive_nohang cfg env.now o snd rr cs
+      cases hr : o.receive cfg env.now snd rr cs with
+      | error e => exact keeps_error _ (nohang_err h1 hr)
+      | ok r =>
+        obtain ⟨o1, s1, fl, evs⟩ := r
+        simp only
+        cases hq : emit (fl.map (ofFlushed their)) with
+        | error e => exact keeps_error _ (nohang_err (emit_nohang _) hq)
+        | ok ps => exact keeps_ok_of _ _ (by intro ha; simpa [Armed] using h2 o1 s1 fl evs hr (hst ha))
+    cases st with
+    | online a b o => exact key a b o (by intro h; simpa [Armed] using h)
+    | pending a b => exact key a b .new (by intro h; simpa [Armed] using h)
+    | unconnected => exact keeps_same _ _
+    | token a => exact keeps_same _ _
+    | pendingConnect a => exact keeps_same _ _
+    | connecting a b => exact keeps_same _ _
+    | disconnected => exact keeps_same _ _
+  | control ack tk ctl =>
+    cases ctl with
+    | keepAlive => exact keeps_same _ _
+    | close r => exact keeps_ok_armed _ _ (by simp [Armed])
+    | accept =>
+      cases st with
+      | connecting a b => exact keeps_ok_of _ _ (by intro ha; simpa [Armed] using ha)
+      | online a b o => exact keeps_same _ _
+      | pending a b => exact keeps_same _ _
+      | unconnected => exact keeps_same _ _
+      | token a => exact keeps_same _ _
+      | pendingConnect a => exact keeps_same _ _
+      | disconnected => exact keeps_same _ _
+    | connect their =>
+      cases st with
+      | pendingConnect a => simp only [feedBody]; exact tickAction_keeps env _ _
+      | online a b o => exact keeps_same _ _
+      | pending a b => exact keeps_same _ _
+      | unconnected => exact keeps_same _ _
+      | token a => exact keeps_same _ _
+      | connecting a b => exact keeps_same _ _
+      | disconnected => exact keeps_same _ _
+    | token their =>
+      cases st with
+      | unconnected =>
+        simp only [feedBody]
+        cases hd : tokenRandom env.draws with
+        | none => exact keeps_panic _ _
+        | some t =>
+          simp only
+          cases hx : sendControlWith (.pendingConnect t) (.token t) their with
+          | error e => exact keeps_error _ (nohang_err (sendControlWith_nohang _ _ _) hx)
+          | ok ps => exact keeps_ok_armed _ _ (by simp [Armed])
+      | pendingConnect a =>
+        simp only [feedBody]
+        cases hx : sendControlWith (.pendingConnect a) (.token a) their with
+        | error e => exact keeps_error _ (nohang_err (sendControlWith_nohang _ _ _) hx)
+        | ok ps => exact keeps_ok_armed _ _ (by simp [Armed])
+      | token a => simp only [feedBody]; exact tickAction_keeps env _ _
+      | online a b o => exact keeps_same _ _
+      | pending a b => exact keeps_same _ _
+      | connecting a b => exact keeps_same _ _
+      | disconnected => exact keeps_same _ _
+
+theorem keeps_of_state_eq {c c1 : Conn} {r : Res} (h : Keeps c1 r) (h2 : Armed c → Armed c1) : Keeps c r :=
+  ⟨h.1, fun c' out he ha => h.2 c' out he (h2 ha)⟩
+
+theorem feed_keeps (env : Env) (c : Conn) (rd : Option Packet) : Keeps c (feed env c rd) := by
+  have body : ∀ (p : Packet) (ack : Nat), Keeps c
+      (match c.state with
+        | .online own their o =>
+          match o.feedAck ack with
+          | .error e => .error e
+          | .ok o1 => feedBody env { c with state := .online own their o1 } p
+        | _ => feedBody env c p) := by
+    intro p ack
+    obtain ⟨st, snd⟩ := c
+    cases st with
+    | online a b o =>
+      simp only
+      cases he : o.feedAck ack with
+      | error e => exact keeps_error _ (nohang_err (feedAck_nohang _ _) he)
+      | ok o1 =>
+        exact keeps_of_state_eq (feedBody_keeps env ⟨.online a b o1, snd⟩ p) (by intro h; simpa [Armed] using h)
+    | unconnected => exact feedBody_keeps env _ p
+    | token a => exact feedBody_keeps env _ p
+    | pendingConnect a => exact feedBody_keeps env _ p
+    | connecting a b => exact feedBody_keeps env _ p
+    | pending a b => exact feedBody_keeps env _ p
+    | disconnected => exact feedBody_keeps env _ p
+  cases rd with
+  | none => exact keeps_same _ _
+  | some p =>
+    cases p with
+    | connless a b d =>
+      simp only [feed]
+      split
+      · exact keeps_same _ _
+      · split
+        · exact keeps_same _ _
+        · exact keeps_same _ _
+    | control ack tk ctl =>
+      simp only [feed]
+      split
+      · exact keeps_same _ _
+      · exact body _ ack
+    | chunks ack tk rr n cs =>
+      simp only [feed]
+      split
+      · exact keeps_same _ _
+      · exact body _ ack
+
+theorem step_keeps (env : Env) (c : Conn) (op : Op) : Keeps c (step env c op) := by
+  cases op with
+  | connect => exact connect_keeps env c
+  | disconnect r => exact disconnect_keeps env c r
+  | flush => exact flush_keeps env c
+  | send d v => exact send_keeps env c d v
+  | sendConnless d => exact sendConnless_keeps env c d
+  | tick => exact tick_keeps env c
+  | feed rd => exact feed_keeps env c rd
+
+theorem run_keeps : ∀ (sched : List (Env × Op)) (c : Conn), Armed c →
+    NoHang (run c sched) ∧ ∀ c' outs, run c sched = .ok (c', outs) → Armed c' := by
+  intro sched
+  induction sched with
+  | nil =>
+    intro c ha
+    refine ⟨by simp [NoHang, run], ?_⟩
+    intro c' outs h; simp [run] at h; rw [← h.1]; exact ha
+  | cons eo rest ih =>
+    intro c ha
+    obtain ⟨env, op⟩ := eo
+    obtain ⟨h1, h2⟩ := step_keeps env c op
+    simp only [run]
+    cases hs : step env c op with
+    | error e =>
+      refine ⟨?_, by intro _ _ h; cases h⟩
+      have := nohang_err h1 hs
+      unfold NoHang; intro h; injection h with h; exact this h
+    | ok r =>
+      obtain ⟨c1, out⟩ := r
+      obtain ⟨h3, h4⟩ := ih c1 (h2 c1 out hs ha)
+      simp only
+      cases hr : run c1 rest with
+      | error e =>
+        refine ⟨?_, by intro _ _ h; cases h⟩
+        have := nohang_err h3 hr
+        unfold NoHang; intro h; injection h with h; exact this h
+      | ok r2 =>
+        obtain ⟨c2, outs⟩ := r2
+        refine ⟨by simp [NoHang], ?_⟩
+        intro c' outs' h
+        injection h with h; injection h with h _; rw [← h]
+        exact h4 c2 outs hr
+
+theorem min_active_ne (x : Nat) (t : Timeout) : Timeout.min (.active x) t ≠ .inactive := by
+  cases t with
+  | inactive => simp [Timeout.min, Timeout.le]
+  | active y =>
+    simp only [Timeout.min, Timeout.le]
+    by_cases h : x ≤ y <;> simp [h]
+
+/-- the states in which the 0.7 code arms a timer -/
+def State.armedKind : State → Bool
+  | .token _ | .connecting _ _ | .pending _ _ | .online _ _ _ => true
+  | _ => false
+
+theorem armed_needsTick {c : Conn} (h : Armed c) (hn : c.state.armedKind = true) : c.needsTick ≠ .inactive := by
+  obtain ⟨st, snd⟩ := c
+  cases st with
+  | unconnected => simp [State.armedKind] at hn
+  | disconnected => simp [State.armedKind] at hn
+  | pendingConnect a => simp [State.armedKind] at hn
+  | token a =>
+    simp only [Armed] at h
+    cases snd with
+    | inactive => simp [Timeout.isActive] at h
+    | active x => exact min_active_ne x _
+  | connecting a b =>
+    simp only [Armed] at h
+    cases snd with
+    | inactive => simp [Timeout.isActive] at h
+    | active x => exact min_active_ne x _
+  | pending a b =>
+    simp only [Armed] at h
+    cases snd with
+    | inactive => simp [Timeout.isActive] at h
+    | active x => exact min_active_ne x _
+  | online a b o =>
+    simp only [Armed] at h
+    cases snd with
+    | inactive => simp [Timeout.isActive] at h
+    | active x => exact min_active_ne x _
+
+end Tw.Conn7
